@@ -10,6 +10,7 @@ from ..viol import Violation, require
 ID = 'C01'
 LEVEL = 'exploration'
 RULE = (
+    'One history shard per tier runs under python -O. Histories also contain the cross-cutting operations of the engine (second manager, fork, rejected calls, resource faults, views, file round trips). '
     'Sandwich: a sweep of connectives and ITE over a manager with an unused variable, one perturbation (undeclare / declare / swap / collect / reorder / sift), the same sweep again. '
     'H: Hypothesis histories (dd.bdd and dd.autoref) in which the connectives run with a warm computed table, after full and rooted collections, after node numbers were freed and re-used and after swaps; after every collection a battery of connectives on the held functions is recomputed and compared (non-trivial: a freed node number was re-used or the order changed). '
     'E: n=3, every ordered pair of the 256 functions x every binary alias '
